@@ -408,6 +408,25 @@ func (s *Sink) Handle(cx *layer4.Connection, _ layer4.Handler) error {
 type Take struct {
 	Name string `json:"name,omitempty"`
 	N    int    `json:"n,omitempty"`
+	// Flip: hand a wrapped connection down the chain (as the tls and proxy_protocol handlers do) that swaps the bytes
+	// 'a' and 'b' of everything read through it: later routes and handlers have to work on that connection
+	Flip bool `json:"flip,omitempty"`
+}
+
+// flipConn reads from the layer4 connection it wraps and swaps 'a' and 'b'.
+type flipConn struct{ net.Conn }
+
+func (f flipConn) Read(p []byte) (int, error) {
+	n, err := f.Conn.Read(p)
+	for i := 0; i < n; i++ {
+		switch p[i] {
+		case 'a':
+			p[i] = 'b'
+		case 'b':
+			p[i] = 'a'
+		}
+	}
+	return n, err
 }
 
 func (*Take) CaddyModule() caddy.ModuleInfo {
@@ -421,16 +440,28 @@ func (t *Take) Handle(cx *layer4.Connection, next layer4.Handler) error {
 		buf := make([]byte, t.N)
 		n, err := io.ReadFull(cx, buf)
 		rec.addStream(t.Name, buf[:n])
-		rec.Add(Event{Kind: "take", Who: t.Name, N: n, S: errString(err)})
+		rec.Add(Event{Kind: "take", Who: t.Name, N: n, S: errString(err), S2: flipWord(t.Flip)})
 		if err != nil {
 			rec.signalDone(t.Name)
 			return nil // client ended early: nothing more to do
 		}
+	} else if t.Flip {
+		rec.Add(Event{Kind: "take", Who: t.Name, N: 0, S2: "flip"})
+	}
+	if t.Flip {
+		cx = cx.Wrap(flipConn{cx})
 	}
 	err := next.Handle(cx)
 	rec.Add(Event{Kind: "exit", Who: t.Name, S: errString(err)})
 	rec.signalDone(t.Name)
 	return err
+}
+
+func flipWord(b bool) string {
+	if b {
+		return "flip"
+	}
+	return ""
 }
 
 // Span logs entry (with what it can see of the connection) and exit around next.
